@@ -112,11 +112,11 @@ theorem decodeString_ustringOf (s : Bytes) (hs : Proofs.C04.Bytes s) : decodeStr
   unfold ustringOf
   split
   · simp only [decodeString, Bool.not_true, Bool.false_eq_true, ↓reduceIte, huffBytes]
-    have := Proofs.C04.decode_encode s hs
+    have := Proofs.C04.decode_appendHuffman s hs
     rw [Proofs.C04.decodeMax_zero, this]
   · simp [decodeString]
 
-theorem readString_appendHpackString (s rest : Bytes) (hlen : s.length < 2 ^ 62) :
+theorem readString_appendHpackString (s rest : Bytes) (hlen : s.length < 2 ^ 62) (hs : Proofs.C04.Bytes s) :
     readString 0 (appendHpackString s ++ rest) = .ok (ustringOf s, rest) := by
   unfold appendHpackString ustringOf
   by_cases hh : Huffman.encodeLength s < s.length
@@ -129,7 +129,7 @@ theorem readString_appendHpackString (s rest : Bytes) (hlen : s.length < 2 ^ 62)
     simp only [List.cons_append] at hrv ⊢
     simp only [readString, hrv]
     have hl : (huffBytes s).length = Huffman.encodeLength s := by
-      unfold huffBytes; exact (Proofs.C04.encodeLength_eq s).symm
+      unfold huffBytes; rw [Proofs.C04.appendHuffman_eq_encode s hs]; exact (Proofs.C04.encodeLength_eq s).symm
     have h1 : ¬ ((huffBytes s ++ rest).length < Huffman.encodeLength s) := by
       simp only [List.length_append]; omega
     simp only [ne_eq, not_true_eq_false, false_and, ↓reduceIte, h1, Except.ok.injEq, Prod.mk.injEq,
@@ -219,15 +219,16 @@ theorem parseAction_literal (d : DecCore) (k : LitKind) (hd : Nat) (p : Bytes)
 
 theorem parseLiteral_idxName (d : DecCore) (hc : DecCfg d) (k : LitKind) (idx : Nat) (e : Entry)
     (value rest : Bytes) (hpos : 0 < idx) (hidx : idx < 2 ^ 62) (hat : d.at idx = some e)
-    (hv : value.length < 2 ^ 62) :
+    (hv : value.length < 2 ^ 62) (hvb : Proofs.C04.Bytes value) :
     parseLiteral d k.n k.it (appendVarInt k.n k.flag idx ++ (appendHpackString value ++ rest)) =
       .ok (.literal k.it (some e.1) { isHuff := false, b := [] } (ustringOf value), rest) := by
   unfold parseLiteral
   simp only [Parser.bind, readVarInt_appendVarInt k.n k.flag idx _ k.prefixN k.flag_mod hidx, hpos, ↓reduceIte, hat,
-    hc.str, readString_appendHpackString value rest hv, Parser.pure]
+    hc.str, readString_appendHpackString value rest hv hvb, Parser.pure]
 
 theorem parseLiteral_newName (d : DecCore) (hc : DecCfg d) (k : LitKind)
-    (name value rest : Bytes) (hn : name.length < 2 ^ 62) (hv : value.length < 2 ^ 62) :
+    (name value rest : Bytes) (hn : name.length < 2 ^ 62) (hv : value.length < 2 ^ 62)
+    (hnb : Proofs.C04.Bytes name) (hvb : Proofs.C04.Bytes value) :
     parseLiteral d k.n k.it (k.flag :: (appendHpackString name ++ (appendHpackString value ++ rest))) =
       .ok (.literal k.it none (ustringOf name) (ustringOf value), rest) := by
   have h0 : k.flag :: (appendHpackString name ++ (appendHpackString value ++ rest)) =
@@ -237,7 +238,7 @@ theorem parseLiteral_newName (d : DecCore) (hc : DecCfg d) (k : LitKind)
   rw [h0]
   unfold parseLiteral
   simp only [Parser.bind, readVarInt_appendVarInt k.n k.flag 0 _ k.prefixN k.flag_mod (by omega), Nat.lt_irrefl,
-    ↓reduceIte, hc.str, readString_appendHpackString name _ hn, readString_appendHpackString value rest hv,
+    ↓reduceIte, hc.str, readString_appendHpackString name _ hn hnb, readString_appendHpackString value rest hv hvb,
     Parser.pure]
 
 /-- The decoder state after a literal of kind `k` carrying `(name, value)`. -/
@@ -267,7 +268,7 @@ theorem parseRepr_literal_idx (d : DecCore) (hc : DecCfg d) (k : LitKind) (idx :
       .ok (afterLiteral d k e.1 value) rest (some { name := e.1, value := value, sensitive := k.it.sensitive }) := by
   have hpa : parseAction d (appendVarInt k.n k.flag idx ++ (appendHpackString value ++ rest)) =
       .ok (.literal k.it (some e.1) { isHuff := false, b := [] } (ustringOf value), rest) := by
-    rw [← parseLiteral_idxName d hc k idx e value rest hpos hidx hat hv]
+    rw [← parseLiteral_idxName d hc k idx e value rest hpos hidx hat hv hvb]
     obtain ⟨hd, tl, hcons, hlo, hhi⟩ := appendVarInt_cons k.n k.flag idx
     rw [hcons]
     exact parseAction_literal d k hd _ hlo hhi
@@ -283,7 +284,7 @@ theorem parseRepr_literal_new (d : DecCore) (hc : DecCfg d) (k : LitKind)
       .ok (afterLiteral d k name value) rest (some { name := name, value := value, sensitive := k.it.sensitive }) := by
   have hpa : parseAction d (k.flag :: (appendHpackString name ++ (appendHpackString value ++ rest))) =
       .ok (.literal k.it none (ustringOf name) (ustringOf value), rest) := by
-    rw [← parseLiteral_newName d hc k name value rest hn hv]
+    rw [← parseLiteral_newName d hc k name value rest hn hv hnb hvb]
     exact parseAction_literal d k k.flag _ (Nat.le_refl _) (by omega)
   unfold parseRepr
   rw [hpa]
@@ -714,7 +715,7 @@ theorem staticTable_length : staticTable.length = 61 := by decide
 open NetVerif.Proofs.Lemmas.Hpack in
 theorem loopG_step (par : Bool) (d d' : DecCore) (buf rest : Bytes) (em : Option Field) (acc : List Field)
     (h : parseRepr d buf = .ok d' rest em) (hlt : rest.length < buf.length) :
-    loopG par d buf acc = loopG par { d' with firstField := false } rest (acc ++ optToList em) := by
+    loopG par d buf acc = loopG par (afterRepr buf d') rest (acc ++ optToList em) := by
   rw [loopG_eq]
   have hne : buf ≠ [] := by intro h0; subst h0; simp at hlt
   rw [if_neg hne, h]
@@ -727,7 +728,7 @@ theorem loopG_nil (par : Bool) (d : DecCore) (acc : List Field) : loopG par d []
 open NetVerif.Proofs.Lemmas.Hpack in
 theorem loopG_err (par : Bool) (d d' : DecCore) (buf : Bytes) (e : PErr) (acc : List Field) (hne : buf ≠ [])
     (h : parseRepr d buf = .err e d') :
-    loopG par d buf acc = ({ d' with firstField := false }, acc, .err e) := by
+    loopG par d buf acc = (afterRepr buf d', acc, .err e) := by
   rw [loopG_eq, if_neg hne, h]
 
 open NetVerif.Proofs.Lemmas.Hpack in
@@ -735,5 +736,19 @@ theorem write_eq (d : Decoder) (p : Bytes) (hp : p ≠ []) :
     d.write p = finishWrite (loopG true d.toDecCore (d.saveBuf ++ p) []) := by
   unfold Decoder.write Decoder.writeG loopG
   simp [hp]
+
+theorem isSizeUpdate_appendTableSize (v : Nat) (rest : Bytes) : isSizeUpdate (appendTableSize v ++ rest) = true := by
+  obtain ⟨hd, tl, hcons, hlo, hhi⟩ := appendVarInt_cons 5 32 v
+  unfold appendTableSize
+  rw [hcons]
+  simp only [Nat.reducePow, Nat.reduceSub, Nat.reduceAdd] at hhi
+  have : hd / 32 = 1 := by omega
+  simp [isSizeUpdate, this]
+
+/-- A table size update keeps `firstField` (the repaired `Decoder.Write`). -/
+theorem afterRepr_update (v : Nat) (rest : Bytes) (d : DecCore) : afterRepr (appendTableSize v ++ rest) d = d := by
+  unfold afterRepr
+  rw [isSizeUpdate_appendTableSize]
+  rfl
 
 end NetVerif.Proofs.Lemmas.HpackEnc
